@@ -9,6 +9,7 @@ package main
 
 import (
 	"fmt"
+	"go/ast"
 	"go/constant"
 	"go/token"
 	"go/types"
@@ -30,6 +31,7 @@ type c13 struct {
 
 func runC13(r *Report) {
 	r.Explanation = "S1: SSA value-flow analysis of the generator. The text emitted after `const SpecFile string = ` must be strconv.Quote/AppendQuote/%q of a value that traces back — through parameters (all call-graph callers), closure captures and string/[]byte conversions only — to the first result of os.ReadFile(<spec file parameter>) (or to the exported API parameter). Any other instruction on the way (a call, a slice, a concatenation) is reported. This delegates clause (a) for ALL byte strings to strconv.Quote's contract. S3: in every instantiated package the spec handler serves the package-level []byte(SpecFile) with one Write after status 200, and ServeHTTP's spec branch precedes routing and middlewares (structural, on the generated router of every corpus program)."
+	r.Rule("C13/params-used", "every parameter of package goag's functions on the generation path is used: no flag (spec handler name, base path, …) is silently replaced by another value")
 	r.Rule("C13/literal-by-quote", "the Go literal for the spec content is produced by strconv.Quote / strconv.AppendQuote / fmt.Sprintf(\"%q\") on every path, concatenated only with quote-free constants")
 	r.Rule("C13/bytes-flow", "the quoted value is the unmodified os.ReadFile result of the spec file: only parameter passing, closure capture and string/[]byte conversions on the way")
 	r.Rule("C13/same-file", "the file read for embedding is the same path value that is handed to the OpenAPI loader")
@@ -112,6 +114,7 @@ func (c *c13) run() {
 	for o := range c.origins {
 		os = append(os, o)
 	}
+	c.paramsUsed()
 	c.r.Analysed["content_origins"] = os
 	c.r.Analysed["trace_steps"] = c.steps
 	c.sameFile()
@@ -506,4 +509,52 @@ func variadicOperand(s ssa.Value, i int) ssa.Value {
 		}
 	}
 	return nil
+}
+
+// paramsUsed: every named parameter of the functions of package goag on the generation path is
+// referenced in its body. The command hands each flag (spec file, base path, spec handler name,
+// …) down through these parameters; a parameter that is silently dropped — e.g. another
+// same-typed one passed in its place — makes the generated router ignore that flag (the spec
+// would be served under the wrong name).
+func (c *c13) paramsUsed() {
+	p := c.s.Pkgs[modPath]
+	if p == nil {
+		return
+	}
+	n := 0
+	for _, f := range p.Syntax {
+		for _, d := range f.Decls {
+			fd, ok := d.(*ast.FuncDecl)
+			if !ok || fd.Body == nil {
+				continue
+			}
+			fn := c.s.FuncOfDecl(p, fd)
+			if fn == nil || !c.s.ReachAll[fn] {
+				continue
+			}
+			for _, fl := range fd.Type.Params.List {
+				for _, nm := range fl.Names {
+					if nm.Name == "_" {
+						continue
+					}
+					o := p.TypesInfo.Defs[nm]
+					n++
+					used := false
+					ast.Inspect(fd.Body, func(m ast.Node) bool {
+						if id, ok := m.(*ast.Ident); ok && p.TypesInfo.Uses[id] == o {
+							used = true
+						}
+						return !used
+					})
+					key := funcKey(p, fd) + ":parameter " + nm.Name
+					if used {
+						c.r.OK("C13/params-used", key, c.s.pos(nm.Pos()), "")
+					} else {
+						c.r.Violation("C13/params-used", key, c.s.pos(nm.Pos()), "the parameter is never used: the value the caller passes (a flag of the command) does not reach the generator")
+					}
+				}
+			}
+		}
+	}
+	c.r.FloorMin("parameters of the generation entry points", n, 15)
 }
